@@ -134,8 +134,9 @@ pub fn run(tier: &str, only: Option<&Value>) -> i32 {
                 (pipe::Verdict::Ok(b), true) => {
                     // the reference must be present in the output
                     let text = &b.files["m0.rs"];
-                    if *pos != "enum_base" && !synx::normalise(text).contains("crate::m0::T1") {
-                        Some((format!("reference_dropped:{pos}"), format!("`crate::m0::T1` does not occur in the output:\n{text}")))
+                    let want = if pos.starts_with("generated_vftable") { "crate::m0::FooVftable" } else { "crate::m0::T1" };
+                    if *pos != "enum_base" && !synx::normalise(text).contains(want) {
+                        Some((format!("reference_dropped:{pos}"), format!("`{want}` does not occur in the output:\n{text}")))
                     } else {
                         None
                     }
